@@ -138,7 +138,153 @@ def rnd_req(rng, W, H, c, malformed):
                                       rng.choice([0, 1, W]), rng.choice([0, 1, H]))
 
 
-KINDS = [("shape", 0.62), ("nullcur", 0.14), ("softcur", 0.10), ("f9", 0.05), ("f18", 0.02), ("malformed", 0.07)]
+KINDS = [("shape", 0.50), ("nullcur", 0.14), ("softcur", 0.10), ("f9", 0.05), ("f18", 0.02), ("malformed", 0.07),
+         ("enc", 0.12)]
+
+# pixel encodings a LibVNCClient peer asks for in the "enc" cases (0 = Raw); lossless ones only.
+# LibVNCClient inflates Zlib (6) and ZRLE (16) rectangles with ONE shared stream (client->decompStream), so a
+# viewer that switches between them mid-session cannot decode any more (a limitation of the client library,
+# not of the server: noted in notes/C02.md).  Each generated client therefore sticks to one of 6 / 8 / 16 and
+# switches freely between that one and the other encodings.
+ZFAMILY = [16, 16, 16, 6, 8]
+ENCODINGS = [5, 2, 4, 7, 7, 9, 15, 0]
+
+
+def enc_pool(rng, bpp):
+    """a small colour pool for few-colour pictures (palette encoders).  Pairs that differ only in bits
+    12..16 have the same low 12 bits and the same bits above 16, i.e. they collide in every hash that
+    folds a pixel to 12 bits (ZRLE's palette helper: (pix ^ pix >> 17) & 4095)."""
+    if bpp == 1:
+        return [rng.randrange(256) for _ in range(6)]
+    top = 24 if bpp == 4 else 16
+    pool = []
+    for _ in range(3):
+        c = rng.randrange(1 << top)
+        if bpp == 4:
+            d = c ^ (1 << rng.choice([12, 12, 13, 14, 15, 16]))
+        else:
+            d = c ^ (rng.choice([1, 2, 3, 5, 8, 15]) << 12)
+        pool += [c, d]
+    if bpp == 4 and rng.random() < 0.3:
+        pool[0:2] = [0x336699, 0x337699]
+    return pool + [rng.randrange(1 << top) for _ in range(2)]
+
+
+def rnd_drawpal(rng, W, H, pool):
+    """few colours of the pool, in a random order, a colliding pair kept adjacent most of the time"""
+    k = rng.choice([1, 2, 2, 3, 3, 4, 5])
+    if len(pool) >= 6 and rng.random() < 0.7:
+        i = 2 * rng.randrange(3)
+        pair = [pool[i], pool[i + 1]]
+        if rng.random() < 0.3:
+            pair.reverse()
+        rest = [c for c in pool if c not in pair]
+        rng.shuffle(rest)
+        pos = rng.randint(0, max(0, k - 2))
+        cols = rest[:pos] + pair + rest[pos:max(pos, k - 2)]
+    else:
+        cols = list(pool); rng.shuffle(cols); cols = cols[:k]
+    rc = (0, 0, W, H) if rng.random() < 0.45 else rnd_rect_in(rng, W, H)
+    return "drawpal %d %d %d %d %d %d %s" % (rc + (rng.randint(0, 40), len(cols), " ".join(str(c) for c in cols)))
+
+
+def gen_enc_case(rng, k, quick, newfb=False, kind="enc"):
+    """clients that decode with the real client library and ask for a non-Raw pixel encoding; few-colour
+    pictures repainted many times on one connection (per-connection encoder state: zlib streams, palette
+    hash tables), random pictures, copies, encoding switches.  newfb: also framebuffer replacements
+    (other size / depth / bits per sample) in between (C16)."""
+    r = rng.random()
+    W, H = rnd_size(rng, quick) if r < 0.7 else rng.choice([(70, 9), (17, 66), (40, 30), (64, 16), (65, 17)])
+    bpp = rng.choice([1, 2, 4, 4, 4])
+    bits = {1: 8, 2: 5, 4: 8}[bpp]
+    ncl = rng.choice([1, 1, 2])
+    L = ["case %d %d %d %d %s" % (k, W, H, bpp, kind)]
+    nullcur = rng.random() < 0.5
+    if nullcur:
+        L.append("setcursor 0")
+    pool = enc_pool(rng, bpp)
+    mode = {}
+    zenc = {}
+
+    def setenc(c, first):
+        copy = 0 if nullcur else (1 if rng.random() < 0.5 else 0)
+        if first:
+            mode[c] = rng.choice(["newfb", "newfb", "ext", "none"]) if newfb else "none"
+            zenc[c] = rng.choice(ZFAMILY)
+        enc = zenc[c] if rng.random() < 0.45 else rng.choice(ENCODINGS)
+        return "setenc %d %d %d %d %d %d" % (c, copy, 0 if nullcur else 1, 1 if mode[c] == "newfb" else 0,
+                                             1 if mode[c] == "ext" else 0, enc)
+    for c in range(ncl):
+        L.append("addclient")
+        L.append(setenc(c, True))
+        L.append("req %d 0 0 0 %d %d" % (c, W, H))
+        L.append("tick %d" % c)
+    for _ in range(rng.choice([8, 14, 20, 30])):
+        r = rng.random(); c = rng.randrange(ncl)
+        if r < 0.40:
+            L.append(rnd_drawpal(rng, W, H, pool))
+            if rng.random() < 0.7:
+                for q in range(ncl):
+                    L.append("req %d %d 0 0 %d %d" % (q, rng.choice([0, 1, 1]), W, H))
+                    L.append("tick %d" % q)
+        elif r < 0.48:
+            L.append("draw %d %d %d %d %d" % (rnd_mark_args(rng, W, H) + (rng.randint(0, 999),)))
+        elif r < 0.52:
+            L.append("mark %d %d %d %d" % rnd_mark_args(rng, W, H))
+        elif r < 0.58:
+            (rc,), dx, dy = rnd_copy(rng, W, H, 1)
+            L.append("docopyrect %d %d %d %d %d %d" % (rc + (dx, dy)))
+        elif r < 0.72:
+            L.append(rnd_req(rng, W, H, c, False))
+        elif r < 0.90:
+            L.append("tick %d" % c)
+        elif r < 0.94:
+            L.append(setenc(c, False))
+        elif r < 0.96:
+            L.append("knobs %d %d" % (rng.choice([0, 1, 2, 50]), rng.choice([0, 0, 0, 3, 8])))
+        elif newfb or r < 0.97:
+            if newfb:
+                nw, nh = rng.choice([(W, H), (W, H), rnd_size(rng, quick), (max(1, W - 3), max(1, H - 2))])
+                nb, nbits = rnd_format(rng, bpp, bits)
+                L.append(newfb_op(nw, nh, nb, rng.randint(0, 999), nbits))
+                if (nb, nbits) != (bpp, bits):
+                    pool = enc_pool(rng, nb)
+                W, H, bpp, bits = nw, nh, nb, nbits
+            else:
+                L.append("tick %d" % c)
+        else:
+            L.append("tick %d" % c)
+    L.append("knobs 50 0")
+    for c in range(ncl):
+        for _ in range(3 if newfb else 2):
+            L.append("req %d 1 0 0 %d %d" % (c, W, H))
+            L.append("tick %d" % c)
+    return L
+
+
+STD_BITS = {1: 8, 2: 5, 4: 8}
+
+
+def rnd_format(rng, bpp, bits):
+    """the format of a replacement framebuffer: the same, another depth, or the SAME depth with other bits per
+    sample (16 bpp 5 <-> 4 bits, 32 bpp 8 <-> 10 bits ...: other maxima and shifts, same pixel size)"""
+    r = rng.random()
+    if r < 0.45:
+        return bpp, bits
+    if r < 0.70 and bpp != 1:
+        alt = [b for b in ([3, 4, 4, 5, 5] if bpp == 2 else [5, 8, 8, 10, 10, 6]) if b != bits]
+        return bpp, rng.choice(alt)
+    nb = rng.choice([1, 2, 4])
+    nbits = STD_BITS[nb]
+    if nb != 1 and rng.random() < 0.25:
+        nbits = rng.choice([4, 5] if nb == 2 else [8, 10, 5])
+    return nb, nbits
+
+
+def newfb_op(w, h, bpp, seed, bits):
+    if bits == STD_BITS[bpp]:
+        return "newfb %d %d %d %d" % (w, h, bpp, seed)
+    return "newfb %d %d %d %d %d" % (w, h, bpp, seed, bits)
 
 
 def pick_kind(rng):
@@ -152,6 +298,8 @@ def pick_kind(rng):
 
 def gen_case(rng, k, quick, kind=None, nops=None):
     kind = kind or pick_kind(rng)
+    if kind == "enc":
+        return gen_enc_case(rng, k, quick)
     W, H = rnd_size(rng, quick)
     if kind == "f9" and (H < 3 or W < 2):
         W, H = 8, 6
@@ -313,6 +461,16 @@ def boundary_cases(k0):
         "req 0 1 0 0 12 12", "tick 0", "docopyrgn 0 5 2 0 5 6 8 2 8 10 12", "req 0 1 0 0 12 12", "tick 0"])
     # F21 (fixed d179288): mark wholly outside the screen
     add("malformed", 12, 8, 4, pre + ["mark 15 1 20 5", "req 0 1 0 0 12 8", "tick 0", "mark -9 1 -3 5", "tick 0"])
+    # peers decoding ZRLE / Tight / Hextile with the client library: two colours that collide in a 12-bit hash
+    # (0x336699 / 0x337699), repainted with the palette position of the second one changing between updates
+    for enc in (16, 7, 5, 15, 6):
+        for (bpp, A, B, X) in ((4, 0x336699, 0x337699, 0x10ff20), (2, 0x0699, 0x7699, 0x1234)):
+            add("enc", 20, 12, bpp, ["setcursor 0", "addclient", "setenc 0 0 0 0 0 %d" % enc,
+                "drawpal 0 0 20 12 0 2 %d %d" % (A, B), "req 0 0 0 0 20 12", "tick 0",
+                "drawpal 0 0 20 12 0 3 %d %d %d" % (X, A, B), "req 0 1 0 0 20 12", "tick 0",
+                "drawpal 3 2 17 9 1 4 %d %d %d %d" % (A, X, 7, B), "req 0 1 0 0 20 12", "tick 0",
+                "drawpal 0 0 20 12 2 2 %d %d" % (B, A), "req 0 0 0 0 20 12", "tick 0",
+                "drawpal 0 0 20 12 0 3 %d %d %d" % (A, B, X), "req 0 1 0 0 20 12", "tick 0", "tick 0"])
     # F18 (fixed 812461a): NULL cursor, client without cursor-shape support, copy
     add("f18", 8, 6, 4, ["setcursor 0", "addclient", "setenc 0 1 0 0 0", "docopyrect 4 2 7 4 3 1"])
     return C
@@ -535,9 +693,18 @@ def taint_timeline(case, impl_lines):
 SCALED_EXTRA = re.compile(r" scaled=\S+ uniform=\d value=\d+")
 
 
-def canon(line, tainted):
-    """picture fields of tainted clients are masked; the harness-only fields of scaled clients dropped"""
+WIRE_TOK = re.compile(r" w\d+:(?:n=|resize=)\S+")
+
+
+def canon(line, tainted, enc=False):
+    """picture fields of tainted clients are masked; the harness-only fields of scaled clients dropped.
+    enc cases (peers decode another pixel encoding with the client library): the rectangle lists on the wire
+    and the exact picture depend on the encoder (rectangle splitting, no coalescing for some encodings, the
+    unused byte of 32-bit pixels) - the regions, flags, sizes and the convergence verdict I are compared."""
     line = SCALED_EXTRA.sub("", line)
+    if enc:
+        line = WIRE_TOK.sub("", line)
+        line = re.sub(r" P=\d+", " P=-", line)
     for ci in tainted:
         line = re.sub(r"(\| c%d [^|]*?) sz=\S+ P=\S+ I=\S+" % ci, r"\1 sz=- P=- I=-", line)
     return line
@@ -692,7 +859,7 @@ def oracle_case(case, impl_lines, crash):
 
 # ---------------------------------------------------------------- the check
 def build(ctx):
-    cexe = vlib.build_harness("vdrv_update", ["vdrv_update.c"], wraps=HARNESS_WRAPS)
+    cexe = vlib.build_harness("vdrv_update", ["vdrv_update.c"], wraps=HARNESS_WRAPS, client=True)
     proof_ok = vlib.prove(ctx, PROP_FILE, [EXTRACT])
     mexe = vlib.build_ocaml(OCAML_ID, DRIVER, EXTRACT)
     return cexe, mexe, proof_ok
@@ -707,7 +874,8 @@ def run_one(cexe, mexe, case):
 def diff_case(case, il, ml):
     tl = taint_timeline(case, il)
     t = lambda i: tl[i] if i < len(tl) else (tl[-1] if tl else set())
-    return vlib.first_diff([canon(l, t(i)) for i, l in enumerate(il)], [canon(l, t(i)) for i, l in enumerate(ml)])
+    enc = case_kind(case).startswith("enc")
+    return vlib.first_diff([canon(l, t(i), enc) for i, l in enumerate(il)], [canon(l, t(i), enc) for i, l in enumerate(ml)])
 
 
 def shrink_case(case, pred, max_tests=150):
